@@ -360,3 +360,31 @@ PROPS["C17"] = dict(
                                                                 "refused_missing": 10, "refused_empty": 10, "loaded_control": 13}),
     assumptions=[A_SAN, "only single-file damage is enumerated; combinations of damaged files are not explored"],
 )
+
+PROPS["C04"] = dict(
+    title="Forced alignment is a consistent words > phones > states hierarchy", level="exploration",
+    technique="runtime monitor over decoder_alignment() objects walked through the public iterators: comparison with the first-pass segmentation observed "
+              "just before, with the harness' own parse of the dictionary files, with the model's senone-sequence tables under an independent context "
+              "rule, arithmetic on times and scores, and independent re-scoring of the reported state path; under ASan/UBSan",
+    level_text="exploration: generated scenarios (alignment text 45%, FSG / JSGF grammars otherwise; en-us and fr-fr; triphone and cionly; compallsen on/off; "
+               "default, narrow and open beams; all calling patterns incl. full_utt, buffered no_search chunks and streaming) with the alignment requested "
+               "at random partial results and after the utterance, twice in a row (must be the same object), through decoder_result_json at phone and "
+               "state level, and in a second utterance on the same decoder at exactly the frame count of the previous one. Checked on every alignment: "
+               "words == dictionary words of the segmentation (name, start, duration); phones == pronunciation in dict.txt/noisedict.txt (own parse); "
+               "states == senones of the model's phone for (base, left, right, position) found by the harness' own triphone search; every level "
+               "contiguous from 0 with positive durations; children partition parents; parent score == sum of children; flat and nested iterators "
+               "agree. With compallsen (final results): every phone score == -(emissions re-computed by the harness + transitions of the reported "
+               "state path, exit included) and all state scores add up under one transition-attribution convention. With open beams + compallsen: "
+               "word score == first-pass segment ascr - wip - phones x pip.",
+    level_note="the first-pass equality is only demanded where both passes optimise the same function: open beams, compallsen, and not for one-phone "
+               "content words with triphones (scored with a fixed SIL right context in the first pass, by design) nor for the last word of a grammar "
+               "(not alignment text) result, whose right context in the first pass is the best of the grammar's continuations; state-level attribution "
+               "of transitions is a convention: either 'out of the state' or 'into the state' is accepted if it holds for all states of the utterance",
+    rule="one case = one scenario; non-trivial = at least one alignment was returned and checked; distinct = (case, number of alignments).",
+    stages=[dict(harness="h_align", flavor="asan", quick=260, thorough=5000), dict(harness="h_align", flavor="fast", quick=500, thorough=12000, name="h_align_fast")],
+    floor=dict(min_evaluations=200, min_distinct=100, counters={"final_alignments_checked": 150, "partial_alignments_checked": 50, "words_compared_with_segmentation": 500,
+                                                              "phones_compared_with_dictionary": 1500, "single_phone_words_checked": 20, "state_paths_rescored": 50,
+                                                              "word_scores_equal_to_first_pass": 100, "json_state_level_compared": 30, "json_phone_level_compared": 30,
+                                                              "stale_alignment_probes": 5, "cionly_cases": 10}),
+    assumptions=[A_SAN, A_GEN, "senone scores re-computed by the harness through acmod_score with compallsen equal those of the second pass (no active-set dependence)"],
+)
